@@ -84,6 +84,10 @@ def mut_calls(body, R=None):
     return out
 
 
+BORROW_THROUGH = {'next', 'next_back', 'into_iter', 'iter_mut', 'iter', 'enumerate', 'rev', 'by_ref', 'deref_mut', 'deref', 'as_mut',
+                  'as_mut_slice', 'index_mut', 'get_mut', 'first_mut', 'last_mut', 'borrow_mut', 'skip', 'take', 'peekable', 'zip'}
+
+
 def _is_ref_ty(ty):
     ty = ty.strip()
     return ty.startswith('&') or ty.startswith('*')
@@ -99,13 +103,40 @@ def place_is_owned(body, pl, bb, idx, depth=0):
             return False
         return not _is_ref_ty(body.local_ty(l))
     if not any(p['k'] == 'deref' for p in pl['proj']):
-        return not _is_ref_ty(body.local_ty(l)) or False
+        if _is_ref_ty(body.local_ty(l)):
+            return False
+        # the local's own storage -- unless the local is an iterator / guard built from a borrow (`IterMut`, `Enumerate<IterMut>`, ..):
+        # then what it hands out lives where that borrow points
+        defs = body.defs().get(l, [])
+        if len(defs) == 1 and defs[0][1] == 'term' and depth <= 10:
+            t = body.blocks[defs[0][0]]['term']
+            if t['k'] == 'call' and Callee(t['func']).name in BORROW_THROUGH and t['args'] and \
+                    t['args'][0]['k'] in ('copy', 'move') and not t['args'][0]['place']['proj']:
+                a0 = t['args'][0]['place']['local']
+                if _is_ref_ty(body.local_ty(a0)):
+                    return place_is_owned(body, {'local': a0, 'proj': [{'k': 'deref'}]}, defs[0][0], 'term', depth + 1)
+                return place_is_owned(body, {'local': a0, 'proj': []}, defs[0][0], 'term', depth + 1)
+        if len(defs) == 1 and defs[0][1] != 'term' and depth <= 10:
+            rv = body.blocks[defs[0][0]]['stmts'][defs[0][1]].get('rv', {})
+            if rv.get('k') == 'use' and rv['op']['k'] in ('copy', 'move') and not rv['op']['place']['proj'] and not pl['proj']:
+                # the iterator moved into the loop variable: same borrow
+                return place_is_owned(body, {'local': rv['op']['place']['local'], 'proj': []}, defs[0][0], defs[0][1], depth + 1)
+        return True
     # deref of a local reference: look at what the reference points to
     defs = body.defs().get(l, [])
-    if len(defs) != 1 or depth > 6:
+    if len(defs) != 1 or depth > 10:
         return False
     dbb, didx = defs[0]
     if didx == 'term':
+        # a reference handed out by an iterator / accessor of a borrowed container (`iter.next()`, `slice.iter_mut()`, `x.as_mut()`):
+        # it points into whatever the first argument borrows
+        t = body.blocks[dbb]['term']
+        if t['k'] == 'call' and Callee(t['func']).name in BORROW_THROUGH and t['args'] and \
+                t['args'][0]['k'] in ('copy', 'move') and not t['args'][0]['place']['proj']:
+            a0 = t['args'][0]['place']['local']
+            if _is_ref_ty(body.local_ty(a0)):
+                return place_is_owned(body, {'local': a0, 'proj': [{'k': 'deref'}]}, dbb, 'term', depth + 1)
+            return place_is_owned(body, {'local': a0, 'proj': []}, dbb, 'term', depth + 1)
         return False
     rv = body.blocks[dbb]['stmts'][didx]['rv']
     if rv['k'] == 'ref':
